@@ -219,11 +219,18 @@ func (d *Driver) runRequests(reqs []*Request, gomaxprocs int) (resps []*Response
 	}
 	werr := cmd.Wait()
 	os.Remove(filepath.Join(d.Work, "race", fmt.Sprintf("r.%d", pid)))
+	if ctx.Err() != nil {
+		// the wall-clock watchdog of the harness fired (hangs of the code under test are found by step
+		// budgets long before): harness trouble, never a verdict
+		return resps, true, watchdogMark + " worker killed after 10 minutes of wall-clock time\n" + tail(errb.String(), 2000)
+	}
 	if werr != nil || (len(resps) < len(reqs) && (len(resps) == 0 || !resps[len(resps)-1].Stop)) {
 		return resps, true, tail(errb.String(), 6000)
 	}
 	return resps, false, ""
 }
+
+const watchdogMark = "HARNESS-WATCHDOG:"
 
 func tail(s string, n int) string {
 	if len(s) > n {
@@ -236,6 +243,9 @@ func tail(s string, n int) string {
 func (d *Driver) RunScenario(sc *Scenario, gomaxprocs int) (*Result, string) {
 	resps, died, stderr := d.runRequests([]*Request{{Scenario: sc, Idx: sc.Run}}, gomaxprocs)
 	if len(resps) == 0 {
+		if died && strings.HasPrefix(stderr, watchdogMark) {
+			return nil, stderr
+		}
 		if died {
 			return abortResult(sc, stderr), ""
 		}
@@ -303,6 +313,10 @@ func (d *Driver) explore(e Engine, n int, a *agg) (done int, stopped bool) {
 						one, died1, stderr1 := d.runRequests([]*Request{{Property: d.Prop, VerifSeed: d.Seed, Tier: d.Tier, Idx: lo, WantScenario: true}}, 0)
 						if len(one) == 1 {
 							a.add(lo, one[0])
+						} else if died1 && strings.HasPrefix(stderr1, watchdogMark) {
+							a.mu.Lock()
+							a.harness = append(a.harness, fmt.Sprintf("run %d: %s", lo, tail(stderr1, 300)))
+							a.mu.Unlock()
 						} else if died1 {
 							// reproducible death: a runtime abort of the code under test
 							gen, _, _ := d.runRequests([]*Request{{Property: d.Prop, VerifSeed: d.Seed, Tier: d.Tier, Idx: lo, WantScenario: true}}, 0)
